@@ -222,6 +222,7 @@ def rules(ctx):
     formulas.transition_formulas(ctx, "R3")
     formulas.transition_total_signs(ctx, "R3")
     formulas.three_opt_indices(ctx, "R3")
+    formulas.transition_counter_deltas(ctx, "R3")
     formulas.cluster_loops(ctx, "R1")
     inf_conversions(ctx, "R4")
     # R5: optimisation never worsens
